@@ -391,6 +391,36 @@ enum StrStyle {
 // Numeric anchor id used internally.
 type AnchorId = u32;
 
+/// The output writer together with the column of the write position.
+///
+/// Indentation is otherwise counted in nesting levels, but "- " does not always take one level
+/// (`indent_step` may differ from 2), so nodes that must be placed relative to their parent
+/// (block scalar bodies) need the real column.
+struct ColumnWriter<'a, W: Write> {
+    inner: &'a mut W,
+    /// Number of characters written since the last line break.
+    col: usize,
+}
+
+impl<W: Write> Write for ColumnWriter<'_, W> {
+    fn write_str(&mut self, s: &str) -> fmt::Result {
+        match s.rfind('\n') {
+            Some(pos) => self.col = s[pos + 1..].chars().count(),
+            None => self.col += s.chars().count(),
+        }
+        self.inner.write_str(s)
+    }
+
+    fn write_char(&mut self, c: char) -> fmt::Result {
+        if c == '\n' {
+            self.col = 0;
+        } else {
+            self.col += 1;
+        }
+        self.inner.write_char(c)
+    }
+}
+
 /// Core YAML serializer used by `to_string`, `to_fmt_writer`, and `to_io_writer` (and their `_with_options` variants).
 ///
 /// This type implements `serde::Serializer` and writes YAML to a `fmt::Write`.
@@ -418,7 +448,7 @@ type AnchorId = u32;
 /// ```
 pub struct YamlSerializer<'a, W: Write> {
     /// Destination writer where YAML text is emitted.
-    out: &'a mut W,
+    out: ColumnWriter<'a, W>,
     /// Spaces per indentation level for block-style collections.
     indent_step: usize,
     /// Threshold for downgrading block-string wrappers to plain scalars.
@@ -480,6 +510,10 @@ pub struct YamlSerializer<'a, W: Write> {
     after_dash_depth: Option<usize>,
     /// Current block map indentation depth (for aligning sequences under a map key).
     current_map_depth: Option<usize>,
+    /// Column at which the entries of the innermost enclosing block collection start (the `-` of
+    /// a sequence item, the first character of a mapping key); `None` at the document root.
+    /// The body of a block scalar must be indented deeper than this.
+    block_parent_col: Option<usize>,
     /// If true, quote all string scalars. Uses single quotes by default, but switches to
     /// double quotes when the string contains escape sequences or single quotes.
     quote_all: bool,
@@ -495,7 +529,7 @@ impl<'a, W: Write> YamlSerializer<'a, W> {
     /// Called by `to_writer`/`to_string` entry points.
     pub fn new(out: &'a mut W) -> Self {
         Self {
-            out,
+            out: ColumnWriter { inner: out, col: 0 },
             indent_step: 2,
             min_fold_chars: MIN_FOLD_CHARS,
             folded_wrap_col: FOLDED_WRAP_CHARS,
@@ -521,6 +555,7 @@ impl<'a, W: Write> YamlSerializer<'a, W> {
             last_value_was_block: false,
             after_dash_depth: None,
             current_map_depth: None,
+            block_parent_col: None,
             quote_all: false,
             yaml_12: false,
             doc_started: false,
@@ -677,16 +712,11 @@ impl<'a, W: Write> YamlSerializer<'a, W> {
         Ok(())
     }
 
-    /// Write a folded block string body, wrapping to `folded_wrap_col` characters.
+    /// Write a folded block string body indented by `body_col` spaces, wrapping to
+    /// `folded_wrap_col` characters.
     /// Delegates to the standalone function in `wrapping` module.
-    fn write_folded_block(&mut self, s: &str, indent: usize) -> Result<()> {
-        crate::wrapping::write_folded_block(
-            self.out,
-            s,
-            indent,
-            self.indent_step,
-            self.folded_wrap_col,
-        )?;
+    fn write_folded_block(&mut self, s: &str, body_col: usize) -> Result<()> {
+        crate::wrapping::write_folded_block(&mut self.out, s, body_col, 1, self.folded_wrap_col)?;
         self.at_line_start = true;
         Ok(())
     }
@@ -957,7 +987,7 @@ impl<'a, 'b, W: Write> Serializer for &'a mut YamlSerializer<'b, W> {
         if self.at_line_start {
             self.write_indent(self.depth)?;
         }
-        zmij_format::write_float_string(self.out, v)?;
+        zmij_format::write_float_string(&mut self.out, v)?;
         self.write_end_of_scalar()
     }
 
@@ -967,7 +997,7 @@ impl<'a, 'b, W: Write> Serializer for &'a mut YamlSerializer<'b, W> {
         if self.at_line_start {
             self.write_indent(self.depth)?;
         }
-        zmij_format::write_float_string(self.out, v)?;
+        zmij_format::write_float_string(&mut self.out, v)?;
         self.write_end_of_scalar()
     }
 
@@ -1066,12 +1096,20 @@ impl<'a, 'b, W: Write> Serializer for &'a mut YamlSerializer<'b, W> {
             if self.at_line_start {
                 self.write_indent(base)?;
             }
+            // The body goes one level below `base`. It must also be indented deeper than the
+            // entry of the parent collection this scalar belongs to, which levels alone do not
+            // guarantee: "- " is not always one level wide (`- key: |` with `indent_step: 1`
+            // puts the key in the column of level 2), and the fields of tuple structs / tuple
+            // variants sit one level deeper than `base` tells.
+            let mut body_col = self.indent_step * (base + 1);
+            if let Some(parent_col) = self.block_parent_col {
+                body_col = body_col.max(parent_col + self.indent_step);
+            }
             // Compute the indentation indicator N for block scalars.
-            // N = indent_step * body_base = number of spaces the parser will strip.
+            // N = number of spaces the parser will strip.
             // We must emit an explicit indicator when the first non-empty content line
             // has leading whitespace, so the parser knows how much to strip.
-            let body_base = base + 1;
-            let indent_n = self.indent_step * body_base;
+            let indent_n = body_col;
 
             // Check if we need an explicit indentation indicator.
             // Required when the first non-empty line has leading whitespace.
@@ -1124,7 +1162,7 @@ impl<'a, 'b, W: Write> Serializer for &'a mut YamlSerializer<'b, W> {
                     // empty content line per line break (tests expect this for "\n").
                     // Precompute body indent string once for the entire block
                     let mut indent_buf: String = String::new();
-                    let spaces = self.indent_step * body_base;
+                    let spaces = body_col;
                     if spaces > 0 {
                         indent_buf.reserve(spaces);
                         for _ in 0..spaces {
@@ -1179,7 +1217,7 @@ impl<'a, 'b, W: Write> Serializer for &'a mut YamlSerializer<'b, W> {
                     // Note: Explicit FoldStr/FoldString wrappers historically used plain '>'
                     // regardless of trailing newline; keep that behavior for compatibility.
                     self.newline()?;
-                    self.write_folded_block(v, body_base)?;
+                    self.write_folded_block(v, body_col)?;
                 }
             }
             // reset auto flag after using pending style
@@ -1351,6 +1389,7 @@ impl<'a, 'b, W: Write> Serializer for &'a mut YamlSerializer<'b, W> {
             // not the serializer's current depth (which may still be the outer level).
             let base = self.current_map_depth.unwrap_or(self.depth);
             self.write_indent(base + 1)?;
+            let prev_parent_col = self.block_parent_col.replace(self.out.col);
             self.write_plain_or_quoted(variant)?;
             // Write ':' without trailing space, then mark that a space may be needed
             // if the following value is a scalar.
@@ -1365,12 +1404,14 @@ impl<'a, 'b, W: Write> Serializer for &'a mut YamlSerializer<'b, W> {
             let prev_map_depth = self.current_map_depth.replace(base + 1);
             let res = value.serialize(&mut *self);
             self.current_map_depth = prev_map_depth;
+            self.block_parent_col = prev_parent_col;
             return res;
         }
         // Otherwise (top-level or sequence context).
         if self.at_line_start {
             self.write_indent(self.depth)?;
         }
+        let prev_parent_col = self.block_parent_col.replace(self.out.col);
         self.write_plain_or_quoted(variant)?;
         // Write ':' without a space and defer spacing/newline to the value serializer.
         self.out.write_str(":")?;
@@ -1382,14 +1423,16 @@ impl<'a, 'b, W: Write> Serializer for &'a mut YamlSerializer<'b, W> {
         // If this variant is inside a block sequence element (`- Variant:`), ensure the nested
         // value indents under the variant label rather than aligning with the list indentation.
         // SeqSer stores the dash's indentation depth in `after_dash_depth`.
-        if let Some(d) = self.after_dash_depth.take() {
+        let res = if let Some(d) = self.after_dash_depth.take() {
             let prev_map_depth = self.current_map_depth.replace(d + 1);
             let res = value.serialize(&mut *self);
             self.current_map_depth = prev_map_depth;
             res
         } else {
             value.serialize(&mut *self)
-        }
+        };
+        self.block_parent_col = prev_parent_col;
+        res
     }
 
     // -------- Collections --------
@@ -1550,6 +1593,7 @@ impl<'a, 'b, W: Write> Serializer for &'a mut YamlSerializer<'b, W> {
                 last_key_complex: false,
                 align_after_dash: false,
                 inline_value_start: false,
+                entry_col: 0,
             })
         } else {
             let inline_first = self.pending_inline_map;
@@ -1630,6 +1674,7 @@ impl<'a, 'b, W: Write> Serializer for &'a mut YamlSerializer<'b, W> {
                 last_key_complex: false,
                 align_after_dash: inline_first,
                 inline_value_start: inline_value_start_flag,
+                entry_col: 0,
             })
         }
     }
@@ -1749,6 +1794,7 @@ impl<'a, 'b, W: Write> SerializeSeq for SeqSer<'a, 'b, W> {
             } else {
                 self.ser.write_indent(self.depth)?;
             }
+            let dash_col = self.ser.out.col;
             self.ser.out.write_str("- ")?;
             self.ser.at_line_start = false;
             if self.first && self.ser.inline_map_after_dash {
@@ -1759,7 +1805,10 @@ impl<'a, 'b, W: Write> SerializeSeq for SeqSer<'a, 'b, W> {
             self.ser.after_dash_depth = Some(self.depth);
             // Hint to emit first key/element of a following mapping/sequence inline on the same line.
             self.ser.pending_inline_map = true;
-            v.serialize(&mut *self.ser)?;
+            let prev_parent_col = self.ser.block_parent_col.replace(dash_col);
+            let result = v.serialize(&mut *self.ser);
+            self.ser.block_parent_col = prev_parent_col;
+            result?;
         }
         self.first = false;
         Ok(())
@@ -1913,9 +1962,12 @@ impl<'a, 'b, W: Write> SerializeTupleStruct for TupleSer<'a, 'b, W> {
                     }
                 }
                 self.ser.write_indent(self.ser.depth + 1)?;
+                let prev_parent_col = self.ser.block_parent_col.replace(self.ser.out.col);
                 self.ser.out.write_str("- ")?;
                 self.ser.at_line_start = false;
-                value.serialize(&mut *self.ser)?;
+                let result = value.serialize(&mut *self.ser);
+                self.ser.block_parent_col = prev_parent_col;
+                result?;
             }
             TupleKind::AnchorStrong => {
                 match self.idx {
@@ -2046,9 +2098,12 @@ impl<'a, 'b, W: Write> SerializeTupleVariant for TupleVariantSer<'a, 'b, W> {
 
     fn serialize_field<T: ?Sized + Serialize>(&mut self, value: &T) -> Result<()> {
         self.ser.write_indent(self.depth)?;
+        let prev_parent_col = self.ser.block_parent_col.replace(self.ser.out.col);
         self.ser.out.write_str("- ")?;
         self.ser.at_line_start = false;
-        value.serialize(&mut *self.ser)
+        let result = value.serialize(&mut *self.ser);
+        self.ser.block_parent_col = prev_parent_col;
+        result
     }
     fn end(self) -> Result<()> {
         Ok(())
@@ -2080,6 +2135,8 @@ pub struct MapSer<'a, 'b, W: Write> {
     /// so that an empty map can be serialized as `{}` right there. When the first key arrives,
     /// we must break the line and indent appropriately.
     inline_value_start: bool,
+    /// Column at which the current entry (its key, or the `?` of a complex key) starts.
+    entry_col: usize,
 }
 
 impl<'a, 'b, W: Write> SerializeMap for MapSer<'a, 'b, W> {
@@ -2130,6 +2187,7 @@ impl<'a, 'b, W: Write> SerializeMap for MapSer<'a, 'b, W> {
                     } else {
                         self.ser.write_indent(self.depth)?;
                     }
+                    self.entry_col = self.ser.out.col;
                     self.ser.out.write_str(&text)?;
                     // Defer the decision to put a space vs. newline until we see the value type.
                     self.ser.out.write_str(":")?;
@@ -2140,10 +2198,12 @@ impl<'a, 'b, W: Write> SerializeMap for MapSer<'a, 'b, W> {
                 Err(Error::Unexpected { msg }) if msg == "non-scalar key" => {
                     self.ser.write_anchor_for_complex_node()?;
                     self.ser.write_indent(self.depth)?;
+                    self.entry_col = self.ser.out.col;
                     self.ser.out.write_str("? ")?;
                     self.ser.at_line_start = false;
 
                     let saved_depth = self.ser.depth;
+                    let saved_parent_col = self.ser.block_parent_col.replace(self.entry_col);
                     let saved_current_map_depth = self.ser.current_map_depth;
                     let saved_pending_inline_map = self.ser.pending_inline_map;
                     let saved_inline_map_after_dash = self.ser.inline_map_after_dash;
@@ -2158,6 +2218,7 @@ impl<'a, 'b, W: Write> SerializeMap for MapSer<'a, 'b, W> {
                     key.serialize(&mut *self.ser)?;
 
                     self.ser.depth = saved_depth;
+                    self.ser.block_parent_col = saved_parent_col;
                     self.ser.current_map_depth = saved_current_map_depth;
                     self.ser.pending_inline_map = saved_pending_inline_map;
                     self.ser.inline_map_after_dash = saved_inline_map_after_dash;
@@ -2198,7 +2259,9 @@ impl<'a, 'b, W: Write> SerializeMap for MapSer<'a, 'b, W> {
                 self.ser.depth = self.depth;
             }
             let prev_map_depth = self.ser.current_map_depth.replace(self.depth);
+            let prev_parent_col = self.ser.block_parent_col.replace(self.entry_col);
             let result = value.serialize(&mut *self.ser);
+            self.ser.block_parent_col = prev_parent_col;
             self.ser.current_map_depth = prev_map_depth;
             // Always restore the parent's pending_inline_map to avoid leaking inline hints
             // across sibling values (e.g., after finishing a sequence value like `groups`).
@@ -2292,6 +2355,7 @@ impl<'a, 'b, W: Write> SerializeStructVariant for StructVariantSer<'a, 'b, W> {
     ) -> Result<()> {
         let text = scalar_key_to_string(&key, self.ser.yaml_12)?;
         self.ser.write_indent(self.depth)?;
+        let prev_parent_col = self.ser.block_parent_col.replace(self.ser.out.col);
         self.ser.out.write_str(&text)?;
         // Defer spacing/newline decision to the value serializer similarly to map entries.
         self.ser.out.write_str(":")?;
@@ -2301,6 +2365,7 @@ impl<'a, 'b, W: Write> SerializeStructVariant for StructVariantSer<'a, 'b, W> {
         let prev_map_depth = self.ser.current_map_depth.replace(self.depth);
         let result = value.serialize(&mut *self.ser);
         self.ser.current_map_depth = prev_map_depth;
+        self.ser.block_parent_col = prev_parent_col;
         result
     }
     fn end(self) -> Result<()> {
